@@ -176,8 +176,17 @@ func appendedElem(p *Path, acc, next *Term) (*Term, bool) {
 	return v, n == 1
 }
 
+// isFreshAccInit: the initial value of an accumulator that grows by append (or by map stores): nil, a fresh map, or a
+// fresh slice of LENGTH ZERO - make(S, 0, n) reserves room, make(S, n) or make(S, 1, n) starts the result with zero
+// values that are not elements of the input.
 func isFreshAccInit(t *Term) bool {
-	return t != nil && (t.IsNil() || t.Op == "mkslice" || t.Op == "mkmap")
+	if t == nil {
+		return false
+	}
+	if t.IsNil() || t.Op == "mkmap" {
+		return true
+	}
+	return t.Op == "mkslice" && len(t.Args) >= 1 && t.Args[0].IsConst("0")
 }
 
 func runC14(c *Ctx) {
@@ -390,7 +399,11 @@ func runC14(c *Ctx) {
 				}
 				init := li.Init[phi]
 				if !isFreshAccInit(init) {
-					ok, why = false, "the result accumulates into "+init.String()+", which is not fresh storage (writes land in the argument's array)"
+					if init != nil && init.Op == "mkslice" {
+						ok, why = false, "the result accumulates by append into "+init.String()+", a slice that does not start empty: it begins with zero values that are no elements of the input"
+					} else {
+						ok, why = false, "the result accumulates into "+init.String()+", which is not fresh storage (writes land in the argument's array)"
+					}
 					break
 				}
 				for _, nx := range li.Nexts[phi] {
